@@ -87,6 +87,11 @@ def cases(draw, name, tier):
         for s in case["srcs"]:
             s["fl"] = draw(st.sampled_from(["agen", "agen", "list", "iter", "seq", "reiter", "areiter", "aproxy", "sgen"]))
             s["falsy"] = draw(st.integers(0, 4)) == 0  # (class-based flavours only: the object is falsy)
+        if TOOLS[name].outer:
+            # ... and so may the iterable OF iterables be (an inbox object whose len() is its current backlog)
+            case["params"]["outer"]["fl"] = draw(st.sampled_from(["agen", "agen", "aclass", "list", "iter", "seq", "reiter",
+                                                                   "areiter", "aproxy", "sgen"]))
+            case["params"]["outer"]["falsy"] = draw(st.integers(0, 2)) == 0
         for s in case["srcs"]:
             if s.get("alias") is not None and case["srcs"][s["alias"]]["fl"] == "list":
                 case["srcs"][s["alias"]]["fl"] = "iter"  # aliasing is about one-shot iterators
